@@ -76,6 +76,7 @@ class SegEval:
         self.point_calls = set(point_calls)  # method names returning a point: self.m(t) -> ("call", m, RF)
         self.value_hook = value_hook  # value_hook(self, node) -> abstract value or None (domain-specific expressions)
         self.on_call = on_call  # on_call(self, call) -> True when the call statement was interpreted
+        self.on_stmt = None  # on_stmt(self, stmt): told about every statement on the followed path, before it is interpreted
 
     # ----------------------------------------------------------------- values
     def err(self, what, node=None):
@@ -259,6 +260,8 @@ class SegEval:
         for s in stmts:
             if isinstance(s, ast.Expr) and isinstance(s.value, ast.Constant):
                 continue
+            if self.on_stmt is not None:
+                self.on_stmt(self, s)
             if isinstance(s, ast.If):
                 t = self.decide(s.test)
                 if t is None:
